@@ -52,7 +52,7 @@ def run : Runner
     let foreign ← if ctor == "msgbytesbad" || ctor == "raw" then bytes? _trailing else some []
     let s0 := if ctor == "msgbytesbad" || ctor == "raw" then initBytes foreign
               else if ctor == "msgbytesempty" then initBytes []
-              else if ctor == "bytes" || ctor == "msgbytes" then initBytes W.ser else initMsg
+              else if ctor == "bytes" || ctor == "msgbytes" then initBytes W.ser else initMsg   -- "reader" / "buffer": nothing cached
     let (_, _, toks) := calls.foldl (fun (acc : St × Names × List String) c =>
         let (s, r) := step W acc.1 c
         let (n, t) := resTok acc.2.1 r
